@@ -7,7 +7,7 @@ set -e
 T=$(ls -d ~/.rustup/toolchains/nightly-x86_64-unknown-linux-gnu/lib/rustlib/x86_64-unknown-linux-gnu/bin)
 mkdir -p /tmp/cov
 cd /verif/harness
-CARGO_TARGET_DIR=/tmp/covtarget RUSTFLAGS="-C instrument-coverage --cfg fastcgi_server_verif" cargo +nightly build --offline --quiet
+LLVM_PROFILE_FILE=/tmp/cov/build-%p.profraw CARGO_TARGET_DIR=/tmp/covtarget RUSTFLAGS="-C instrument-coverage --cfg fastcgi_server_verif" cargo +nightly build --offline --quiet   # (build scripts are instrumented too: keep their profiles out of /repo)
 cd /verif
 python3 - <<'PY'
 import sys, random, glob
@@ -23,7 +23,7 @@ with open('/tmp/cov/cases.txt','w') as f:
         for c,t in m.gen_cases(random.Random(1),'quick'):
             f.write(c+'\n')
 PY
-cd /tmp/cov; rm -f *.profraw part_*; split -n l/12 cases.txt part_
+cd /tmp/cov; rm -f *.profraw part_* build-*; split -n l/12 cases.txt part_
 for p in part_??; do LLVM_PROFILE_FILE=/tmp/cov/$p.profraw /tmp/covtarget/debug/fv-harness < $p > $p.out 2>/dev/null & done; wait
 $T/llvm-profdata merge -sparse *.profraw -o all.profdata
 $T/llvm-cov report /tmp/covtarget/debug/fv-harness -instr-profile=all.profdata --ignore-filename-regex='(registry|rustc|harness|rustup)'
